@@ -125,12 +125,13 @@ def build_ill(cls, rng):
         return inner if rng.random() < 0.5 else pg.All(inner, "z", variable="TOP")
     if cls == "dup-child":
         r = rng.random()
+        extra = rng.sample(["y", "z", "w"], rng.randint(0, 2))          # the duplicate may be the only thing a node lists
         if r < 0.4:
-            return pg.AtLeast(1, [puan.variable("x"), puan.variable("x"), "y"], variable="A")
+            return pg.AtLeast(1, [puan.variable("x"), puan.variable("x")] + extra, variable="A")
         if r < 0.7:
             c = pg.Any("a", "b", variable="C")
-            return pg.AtLeast(1, [c, c, "y"], variable="A")
-        return pg.All(pg.AtLeast(2, ["p", "q", "p"], variable="B"), "z", variable="A")
+            return pg.AtLeast(1, [c, c] + extra, variable="A")
+        return pg.All(pg.AtLeast(2, ["p", "p"] + extra, variable="B"), "v", variable="A")
     if cls == "leaf-bounds":
         b1, b2 = rng.choice([((0, 1), (0, 2)), ((0, 5), (1, 5)), ((-3, 3), (0, 1)), ((2, 2), (0, 1))])
         return pg.All(pg.Any(puan.variable("x", b1), "y", variable="B"), pg.Any(puan.variable("x", b2), "z", variable="C"), variable="A")
